@@ -11,6 +11,7 @@
      tx    [chan, data]                 the device received a port-2 request
      ans   [chan, data, w]              the device emitted the answer to its w-th request
      ntf   [chan, data]                 the device emitted an unsolicited value-changed packet
+     dup   [chan, data, w]              the link delivered a second copy of the answer to request w
      rx    [chan, data]                 the dispatcher starts dispatching a port-2 packet
      upd   [cb, p, arg, cache, get]     update callback cb ran (argument, Param.values, get_value)
      cb    [rid, pay]                   the reply callback given to call rid ran
@@ -35,7 +36,7 @@ VARIABLES tid, l,
           mcalls, missued, mwire, mdown, mrxs, mgots, bad, badAt,       \* monitor
           conf, confAt,                                                 \* conformance verdict
           cf, ust, ucur, oneShots, reqQ, upc, cur, waitLock, lockPat, replyCb, dcb, devq, dval, dstored, inq,
-          dpc, snap, dpk, cache, nextRid, nnotif, calls, issued, wire, down, rxs, gots   \* design spec
+          dpc, snap, dpk, cache, nextRid, nnotif, ndup, calls, issued, wire, down, rxs, gots   \* design spec
 
 T == Traces[tid]
 Ev == T.ev[l]
@@ -45,13 +46,15 @@ Ops == {}
 Notifs == {}
 MaxOps == 100000
 MaxNotif == 100000
+MaxDup == 100000
+DistinctPatterns == FALSE     \* (the harness keeps the release patterns distinct in runs with duplicates)
 OneQueryPerCmd == FALSE
 
 D == INSTANCE ParamProto
 P == INSTANCE ParamProtoProps
 
 specvars == <<cf, ust, ucur, oneShots, reqQ, upc, cur, waitLock, lockPat, replyCb, dcb, devq, dval, dstored, inq,
-              dpc, snap, dpk, cache, nextRid, nnotif, calls, issued, wire, down, rxs, gots>>
+              dpc, snap, dpk, cache, nextRid, nnotif, ndup, calls, issued, wire, down, rxs, gots>>
 monvars == <<mcalls, missued, mwire, mdown, mrxs, mgots>>
 
 Init == /\ tid \in 1..Len(Traces)
@@ -67,7 +70,7 @@ Init == /\ tid \in 1..Len(Traces)
         /\ inq = <<>>
         /\ dpc = "recv" /\ snap = <<>> /\ dpk = [chan |-> 0, data |-> <<>>]
         /\ cache = Traces[tid].cfg.init
-        /\ nextRid = 1 /\ nnotif = 0
+        /\ nextRid = 1 /\ nnotif = 0 /\ ndup = 0
         /\ calls = <<>> /\ issued = <<>> /\ wire = <<>> /\ down = <<>> /\ rxs = <<>> /\ gots = <<>>
 
 Fail(c) == IF bad = "ok" /\ c # "ok" THEN bad' = c /\ badAt' = l ELSE UNCHANGED <<bad, badAt>>
@@ -106,6 +109,7 @@ EStep == /\ Ev.e = "step"
               [] Ev.a = "UpdDone" -> Conform(D!UpdDone)
               [] Ev.a = "DevAnswer" -> Conform(D!DevAnswer)
               [] Ev.a = "DevNotify" -> Conform(D!DevNotify(Ev.n))
+              [] Ev.a = "DevDup" -> Conform(D!DevDup(Ev.i))
               [] Ev.a = "DispRecv" -> Conform(D!DispRecv)
               [] Ev.a = "DispRel" -> Conform(D!DispRel)
               [] OTHER -> Conform(FALSE /\ UNCHANGED specvars)
@@ -139,9 +143,9 @@ ETx == /\ Ev.e = "tx"
        /\ LET w2 == Append(mwire, [chan |-> Ev.chan, data |-> Ev.data, nans |-> NAns])
           IN mwire' = w2 /\ Fail(P!WireClause(missued, w2))
        /\ UNCHANGED <<mcalls, missued, mdown, mrxs, mgots>> /\ Keep
-EDown == /\ Ev.e \in {"ans", "ntf"}
+EDown == /\ Ev.e \in {"ans", "ntf", "dup"}
          /\ mdown' = Append(mdown, [kind |-> Ev.e, chan |-> Ev.chan, data |-> Ev.data,
-                                    w |-> IF Ev.e = "ans" THEN Ev.w ELSE 0])
+                                    w |-> IF Ev.e = "ntf" THEN 0 ELSE Ev.w])
          /\ UNCHANGED <<mcalls, missued, mwire, mrxs, mgots, bad, badAt>> /\ Keep
 ERx == /\ Ev.e = "rx"
        /\ Fail(LastRxClause)                       \* the previous dispatch is over now
